@@ -1,0 +1,17 @@
+//go:build verif
+
+package vgirpc
+
+import (
+	"github.com/apache/arrow-go/v18/arrow"
+	"github.com/apache/arrow-go/v18/arrow/ipc"
+)
+
+// Verification hooks (build tag "verif") for the wire-helper round-trip check.
+// Add-only; nothing here is compiled into normal builds.
+
+// VerifC01WriteStateTokenBatch stamps a stream's continuation token(s) on the
+// writer with the server's own stamper (writeStateTokenBatch).
+func VerifC01WriteStateTokenBatch(w *ipc.Writer, schema *arrow.Schema, token, callToken []byte) error {
+	return writeStateTokenBatch(w, schema, token, callToken)
+}
